@@ -560,6 +560,11 @@ func Boot(p *Persist, armAt int) (n *PNode, crashed *CrashSignal, err error) {
 // snapshot runs at the crash instant (on the crashing goroutine).
 func (n *PNode) snapshot() {
 	p := n.P
+	if n.WAL != nil {
+		if bw, ok := n.WAL.WAL.(*consensus.BaseWAL); ok {
+			bw.Group().VerifPnodeFlushNoSync() //nolint
+		}
+	}
 	dst := filepath.Join(p.Root, fmt.Sprintf("snap%d", p.Inc))
 	os.MkdirAll(filepath.Join(dst, "wal"), 0o700) //nolint
 	s := &Snapshot{Dir: dst, BlockDB: copyDB(p.BlockDB), StateDB: copyDB(p.StateDB)}
@@ -570,6 +575,10 @@ func (n *PNode) snapshot() {
 		copyFile(filepath.Join(p.dir(), "wal", e.Name()), filepath.Join(dst, "wal", e.Name())) //nolint
 	}
 	if n.WAL != nil {
+		// everything written but not fsynced is in flight: any prefix of it may survive the crash
+		if bw, ok := n.WAL.WAL.(*consensus.BaseWAL); ok {
+			bw.Group().VerifPnodeFlushNoSync() //nolint
+		}
 		s.HeadSynced = n.WAL.HeadSynced
 		s.HeadOnDisk = n.WAL.stat()
 	} else {
